@@ -67,6 +67,7 @@ template <int I> static void probe(FSM::Instance& m) {
 	m.update();
 	m.react(7);
 	{ int e = 7; const FSM::Instance& cm = m; cm.query(e); }
+	{ FSM::Instance copy{m}; g_out += " copy:"; copy.update(); }      // a copy taken in state I dispatches to state I as well
 	g_out += " sid=" + std::to_string(sid) + " self=" + (self ? "1" : "0") + " active=" + std::to_string(int(m.activeStateId()))
 		+ " isActive=" + (m.isActive(ffsm2::StateID(I)) ? "1" : "0") + (m.isActive<St<I>>() ? "1" : "0") + "\n";
 }
